@@ -1,15 +1,16 @@
 (* Driver for the extracted Runtime model (Sem/Runtime.v).  One case per line, tokens separated by one
    space, strings hex-encoded ("-" = empty).
 
-   value  ::= N (Lua nil) | Z (__NIL) | T | F | I<int> | Q<num>/<den> (lowest terms) | S<hex>
+   value  ::= N (Lua nil) | Z (__NIL) | T | F | I<int> (integer) | Q<num>/<den> (float, lowest terms) | S<hex>
             | t<n> value*n | l<n> value*n | b<n> (<hex-name> value)*n | v<hex-tag> value
    case   ::= OP2 <eq|ne|lt|le|gt|ge|add|sub|mul|div> value value
             | OP1 <neg|tostring> value
             | FN <min|max|abs|clamp|sign|div|floor|rem|isjust|isnone|ordefault|index> <n> value*n
-            | LIST value <n> lop*n      lop ::= push v | prepend v | pop | get I | set I v | len | map addk v
+            | LIST value <n> lop*n      lop ::= push v | prepend v | pop | get I | geteq I v | getisjust I | getisnone I
+                                              | getordefault I v | set I v | len | map addk v
                                               | filter <ltk|eqk|nek> v | fold add v | find <ltk|eqk|nek> v
                                               | contains v | last
-            | DICT <n> dop*n            dop ::= update k v | remove k | get k | len | has k | fromlist value
+            | DICT <n> dop*n            dop ::= update k v | remove k | get k | geteq k v | len | has k | fromlist value
             | SET <n> sop*n             sop ::= add k | remove k | has k | len | fromlist value
    output ::= R OK:<hex tostring> | R ERR | R UNSUP
             | H item*        item = <hex observation>/<hex tostring(list)> for LIST, <hex observation> for
@@ -55,7 +56,7 @@ let rec parse_value (toks : string list) : value * string list =
      | 'I' -> (vint (z_of_int (int_of_string (tail t))), rest)
      | 'Q' ->
        (match String.split_on_char '/' (tail t) with
-        | [a; b] -> (VNum { qnum = z_of_int (int_of_string a); qden = pos_of_int (int_of_string b) }, rest)
+        | [a; b] -> (VFloat { qnum = z_of_int (int_of_string a); qden = pos_of_int (int_of_string b) }, rest)
         | _ -> failwith "bad rational")
      | 'S' -> (VStr (chars_of_string (unhex (tail t))), rest)
      | 't' -> let (vs, r) = parse_values (int_of_string (tail t)) rest in (VTuple vs, r)
@@ -128,6 +129,11 @@ let list_step (l : value) (toks : string list) : (value * value) * string list =
   | "prepend" :: r -> let (v, r) = parse_value r in ((force (rt_list_prepend l v), VLuaNil), r)
   | "pop" :: r -> (force (rt_list_pop l), r)
   | "get" :: i :: r -> ((l, force (rt_list_get l (z_of_tok i))), r)
+  | "geteq" :: i :: r -> let (v, r) = parse_value r in ((l, vbool (rt_eq (force (rt_list_get l (z_of_tok i))) v)), r)
+  | "getisjust" :: i :: r -> ((l, vbool (force (rt_is_just (force (rt_list_get l (z_of_tok i)))))), r)
+  | "getisnone" :: i :: r -> ((l, vbool (force (rt_is_none (force (rt_list_get l (z_of_tok i)))))), r)
+  | "getordefault" :: i :: r ->
+    let (v, r) = parse_value r in ((l, force (rt_or_default (force (rt_list_get l (z_of_tok i))) v)), r)
   | "set" :: i :: r -> let (v, r) = parse_value r in ((force (rt_list_set l (z_of_tok i) v), VLuaNil), r)
   | "len" :: r -> ((l, force (rt_len l)), r)
   | "map" :: "addk" :: r ->
@@ -164,6 +170,8 @@ let dict_step (d : value) (toks : string list) : (value * value) * string list =
     let d' = force (rt_dict_update d k v) in ((d', len_of d'), r)
   | "remove" :: r -> let (k, r) = parse_value r in let d' = force (rt_dict_remove d k) in ((d', len_of d'), r)
   | "get" :: r -> let (k, r) = parse_value r in ((d, force (rt_dict_get d k)), r)
+  | "geteq" :: r ->
+    let (k, r) = parse_value r in let (v, r) = parse_value r in ((d, vbool (rt_eq (force (rt_dict_get d k)) v)), r)
   | "len" :: r -> ((d, len_of d), r)
   | "has" :: r -> let (k, r) = parse_value r in ((d, vbool (force (rt_dict_contains_key d k))), r)
   | "fromlist" :: r -> let (l, r) = parse_value r in let d' = force (rt_dict_from_list l) in ((d', len_of d'), r)
